@@ -572,3 +572,17 @@ def oracle_shared_tasks(case, obs):
 
 FAMILIES.append(Family("shared_context_tasks", gen_shared_tasks, impl_shared_tasks, None, None, oracle_shared_tasks,
                        lambda case, obs: json.dumps(case), shard=20, case_timeout=90))
+
+
+# ---- generator-based coroutines (eliot_friendly_generator_function): the generator family of C15 ------------------------
+from props import C15 as _c15
+
+
+def gen_generators(rng, tier):
+    return _c15.gen_scripts(rng, tier)[:80 if tier == "quick" else 2500]
+
+
+FAMILIES.append(Family("generators", gen_generators, _c15.impl_scripts, _c15.model_scripts, _c15.model_obs_scripts,
+                       _c15.oracle_scripts, _c15.nontrivial_scripts, imports=["Model.Generators"],
+                       project=_c15.project_scripts, shrink=_c15.shrink_scripts, describe=_c15.describe_scripts,
+                       corpus=_c15.CORPUS, shard=100, coq_shard=30))
